@@ -12,6 +12,8 @@
                                 positions, modulo the member descriptions the printer drops (finding R4)
   `print_parse_located_iff`     … equal up to positions to the original itself IF AND ONLY IF the original has no member
                                 description — the exclusion is exact for located trees too
+  `print_parse_located_exact`   a located tree WITHOUT member descriptions round-trips to a tree equal up to source positions
+  `print_parse_located_loss`    in general the loss is `(stripMemberDescriptions d).erase` (strip and erase commute)
   `print_stable_located`        printing the re-parsed tree reproduces the same text
 -/
 import PyGqlModel.Props.C03_full
@@ -62,6 +64,25 @@ theorem print_parse_located_iff (fl : Flags) (c : Cfg) (x : Text) (toks : List T
     exact hm (e0.symm.trans e1)
   · intro hm
     exact ⟨t0, d0, h0, p0, e0.trans (Classical.not_not.1 hm)⟩
+
+/-- **print_parse_located_exact** — a text whose (located) tree carries no member description round-trips to a tree EQUAL UP
+    TO SOURCE POSITIONS: the statement of C03 as written, for the default way of parsing, outside the pinned finding R4 -/
+theorem print_parse_located_exact (fl : Flags) (c : Cfg) (x : Text) (toks : List Tok) (d : Document)
+    (hdesc : c.includeDescriptions = true) (hind : IndentOK c) (hlex : lexAll x = .ok toks)
+    (hparse : parseDocument fl toks = .ok d) (hm : ¬ HasMemberDescription d) :
+    ∃ toks' d', lexAll (printDocument c d) = .ok toks' ∧ parseDocument fl toks' = .ok d' ∧ d'.erase = d.erase := by
+  obtain ⟨t0, d0, h0, p0, e0⟩ := print_parse_located fl c x toks d hdesc hind hlex hparse
+  refine ⟨t0, d0, h0, p0, ?_⟩
+  rw [e0, stripMemberDescriptions_erase, Classical.not_not.1 hm]
+
+/-- … and in general what is lost is exactly the member descriptions, before or after erasing positions -/
+theorem print_parse_located_loss (fl : Flags) (c : Cfg) (x : Text) (toks : List Tok) (d : Document)
+    (hdesc : c.includeDescriptions = true) (hind : IndentOK c) (hlex : lexAll x = .ok toks)
+    (hparse : parseDocument fl toks = .ok d) :
+    ∃ toks' d', lexAll (printDocument c d) = .ok toks' ∧ parseDocument fl toks' = .ok d' ∧
+      d'.erase = (stripMemberDescriptions d).erase := by
+  obtain ⟨t0, d0, h0, p0, e0⟩ := print_parse_located fl c x toks d hdesc hind hlex hparse
+  exact ⟨t0, d0, h0, p0, by rw [e0, stripMemberDescriptions_erase]⟩
 
 /-- printing the re-parsed (located) tree reproduces the same text -/
 theorem print_stable_located (fl : Flags) (c : Cfg) (x : Text) (toks : List Tok) (d : Document)
